@@ -14,6 +14,7 @@ import (
 	"crypto/x509/pkix"
 	"encoding/hex"
 	"encoding/json"
+	"encoding/pem"
 	"fmt"
 	"io"
 	"math/big"
@@ -24,6 +25,7 @@ import (
 	"time"
 
 	"github.com/tjfoc/gmsm/gmtls"
+	"github.com/tjfoc/gmsm/sm2"
 	"github.com/tjfoc/gmsm/x509"
 )
 
@@ -37,7 +39,7 @@ type c06Case struct {
 	Ccert   string   `json:"ccert"`
 	Source  string   `json:"source"`
 	Tickets bool     `json:"tickets"`
-	Data    bool     `json:"data,omitempty"` // driver-side: also push application data
+	Data    bool     `json:"data,omitempty"`  // driver-side: also push application data
 	Dyn     bool     `json:"dyn,omitempty"`   // driver-side: dynamic record sizing left on, and the transfer starts with one 200 kB Write
 	Offer   bool     `json:"offer,omitempty"` // driver-side: the client has a session cache, i.e. offers the session-ticket extension
 }
@@ -77,10 +79,12 @@ var authTypes = map[string]gmtls.ClientAuthType{
 
 // untrusted client certificates: issued by CAs that carry the SAME subject name as the fixture CAs
 type rogueT struct {
-	sm2  gmtls.Certificate
-	rsa  gmtls.Certificate
-	err  error
-	once sync.Once
+	sm2 gmtls.Certificate
+	rsa gmtls.Certificate
+	// client certificates issued through an intermediate CA under the genuine fixture roots: [leaf, intermediate]
+	chainSM2, chainRSA gmtls.Certificate
+	err                error
+	once               sync.Once
 }
 
 var rogue rogueT
@@ -134,8 +138,81 @@ func loadRogue() (*rogueT, error) {
 			return
 		}
 		rogue.rsa = gmtls.Certificate{Certificate: [][]byte{lder}, PrivateKey: lk}
+		rogue.err = buildChains06()
 	})
 	return &rogue, rogue.err
+}
+
+// leaf <- intermediate <- fixture root, for both key families (the fixture directory holds the CA keys)
+func buildChains06() error {
+	// SM2
+	kb, err := os.ReadFile(certPath("SM2_CA_KEY.pem"))
+	if err != nil {
+		return err
+	}
+	caKey, err := x509.ReadPrivateKeyFromPem(kb, nil)
+	if err != nil {
+		return fmt.Errorf("SM2 CA key: %v", err)
+	}
+	cb, _ := os.ReadFile(certPath("SM2_CA.cer"))
+	caCert, err := x509.ReadCertificateFromPem(cb)
+	if err != nil {
+		return fmt.Errorf("SM2 CA certificate: %v", err)
+	}
+	ik, _ := sm2.GenerateKey(rand.Reader)
+	it := &x509.Certificate{SerialNumber: big.NewInt(9001), Subject: pkix.Name{CommonName: "C06 intermediate"}, NotBefore: time.Now().Add(-time.Hour),
+		NotAfter: time.Now().Add(24 * time.Hour), IsCA: true, BasicConstraintsValid: true, KeyUsage: x509.KeyUsageCertSign, SignatureAlgorithm: x509.SM2WithSM3, SubjectKeyId: []byte{6, 6, 6}}
+	ider, err := x509.CreateCertificate(it, caCert, &ik.PublicKey, caKey)
+	if err != nil {
+		return err
+	}
+	icert, _ := x509.ParseCertificate(ider)
+	lk, _ := sm2.GenerateKey(rand.Reader)
+	lt := &x509.Certificate{SerialNumber: big.NewInt(9002), Subject: pkix.Name{CommonName: "C06 chained client"}, NotBefore: time.Now().Add(-time.Hour),
+		NotAfter: time.Now().Add(24 * time.Hour), KeyUsage: x509.KeyUsageDigitalSignature, ExtKeyUsage: []x509.ExtKeyUsage{x509.ExtKeyUsageClientAuth}, SignatureAlgorithm: x509.SM2WithSM3}
+	lder, err := x509.CreateCertificate(lt, icert, &lk.PublicKey, ik)
+	if err != nil {
+		return err
+	}
+	rogue.chainSM2 = gmtls.Certificate{Certificate: [][]byte{lder, ider}, PrivateKey: lk}
+	// RSA, through the standard library
+	rb, err := os.ReadFile(certPath("RSA_CA_KEY.pem"))
+	if err != nil {
+		return err
+	}
+	blk, _ := pem.Decode(rb)
+	var rcaKey *rsa.PrivateKey
+	if k, e := stdx509.ParsePKCS1PrivateKey(blk.Bytes); e == nil {
+		rcaKey = k
+	} else if k8, e := stdx509.ParsePKCS8PrivateKey(blk.Bytes); e == nil {
+		rcaKey, _ = k8.(*rsa.PrivateKey)
+	}
+	if rcaKey == nil {
+		return fmt.Errorf("RSA CA key does not parse")
+	}
+	rcb, _ := os.ReadFile(certPath("RSA_CA.cer"))
+	rblk, _ := pem.Decode(rcb)
+	rcaCert, err := stdx509.ParseCertificate(rblk.Bytes)
+	if err != nil {
+		return err
+	}
+	rik, _ := rsa.GenerateKey(rand.Reader, 2048)
+	rit := &stdx509.Certificate{SerialNumber: big.NewInt(9003), Subject: pkix.Name{CommonName: "C06 rsa intermediate"}, NotBefore: time.Now().Add(-time.Hour),
+		NotAfter: time.Now().Add(24 * time.Hour), IsCA: true, BasicConstraintsValid: true, KeyUsage: stdx509.KeyUsageCertSign}
+	rider, err := stdx509.CreateCertificate(rand.Reader, rit, rcaCert, &rik.PublicKey, rcaKey)
+	if err != nil {
+		return err
+	}
+	ric, _ := stdx509.ParseCertificate(rider)
+	rlk, _ := rsa.GenerateKey(rand.Reader, 2048)
+	rlt := &stdx509.Certificate{SerialNumber: big.NewInt(9004), Subject: pkix.Name{CommonName: "C06 rsa chained client"}, NotBefore: time.Now().Add(-time.Hour),
+		NotAfter: time.Now().Add(24 * time.Hour), KeyUsage: stdx509.KeyUsageDigitalSignature | stdx509.KeyUsageKeyEncipherment, ExtKeyUsage: []stdx509.ExtKeyUsage{stdx509.ExtKeyUsageClientAuth}}
+	rlder, err := stdx509.CreateCertificate(rand.Reader, rlt, ric, &rlk.PublicKey, rik)
+	if err != nil {
+		return err
+	}
+	rogue.chainRSA = gmtls.Certificate{Certificate: [][]byte{rlder, rider}, PrivateKey: rlk}
+	return nil
 }
 
 func c06Configs(c *c06Case) (cc, sc *gmtls.Config, err error) {
@@ -188,6 +265,8 @@ func c06Configs(c *c06Case) (cc, sc *gmtls.Config, err error) {
 			cc.Certificates = []gmtls.Certificate{f.auth}
 		case "untrusted":
 			cc.Certificates = []gmtls.Certificate{rg.sm2}
+		case "chain":
+			cc.Certificates = []gmtls.Certificate{rg.chainSM2}
 		}
 	} else {
 		cc = &gmtls.Config{RootCAs: f.rsaCA, ServerName: "localhost", MaxVersion: gmtls.VersionTLS12}
@@ -196,6 +275,8 @@ func c06Configs(c *c06Case) (cc, sc *gmtls.Config, err error) {
 			cc.Certificates = []gmtls.Certificate{f.rsaAuth}
 		case "untrusted":
 			cc.Certificates = []gmtls.Certificate{rg.rsa}
+		case "chain":
+			cc.Certificates = []gmtls.Certificate{rg.chainRSA}
 		}
 	}
 	cc.CipherSuites = suiteList(c.Csuites)
@@ -389,7 +470,9 @@ func runC06(c *c06Case) (c06Obs, error) {
 		obs.WantPeerC = []string{fp(f.rsa.Certificate[0])}
 	}
 	if len(cc.Certificates) > 0 {
-		obs.WantPeerS = []string{fp(cc.Certificates[0].Certificate[0])}
+		for _, der := range cc.Certificates[0].Certificate {
+			obs.WantPeerS = append(obs.WantPeerS, fp(der))
+		}
 	}
 	obs.Flight = flightOf(m)
 	if c.Data && obs.Cli.Complete && obs.Srv.Complete && obs.Cli.Panic == "" && obs.Srv.Panic == "" {
